@@ -139,6 +139,11 @@ def stepH (ts : List String) (impl : String) : String :=
     if impl.contains "IDS-NOT-SORTED" || impl.contains "ok-id-not-greater" then
       specViol "WriteAuthorizationModel returned an id that is not greater than the earlier ones of the store"
     else if outs.any (· == "diff") then specViol "ReadAuthorizationModel returned a model different from the one written under that id"
+    else if let some why := ((ops.zip outs).filterMap (fun p =>
+        match p.1 with
+        | .wm _ m => if p.2.startsWith "ok" && !isValid m then some (renderV (validate m)) else none
+        | _ => none)).head? then
+      specViol s!"WriteAuthorizationModel accepted and persisted a model that fails validation ({why})"
     else match staleCheck ops outs with
       | some why => specViol why
       | none =>
